@@ -186,9 +186,11 @@ func decodeTimestamp(s []byte) (time.Time, error) {
 // See copy_reflog_msg in refs.c:
 // https://github.com/git/git/blob/7ff1e8dc1e1680510c96e69965b3fa81372c5037/refs.c#L1026-L1049
 func normalizeMessage(msg string) string {
-	msg = strings.ReplaceAll(msg, "\n", " ")
-	msg = strings.ReplaceAll(msg, "\r", " ")
-	fields := strings.Fields(msg)
+	// Git's isspace is ASCII only: blank, TAB, LF and CR. Other white
+	// space (VT, FF, U+00A0, ...) is kept verbatim.
+	fields := strings.FieldsFunc(msg, func(r rune) bool {
+		return r == ' ' || r == '\t' || r == '\n' || r == '\r'
+	})
 	return strings.Join(fields, " ")
 }
 
